@@ -476,17 +476,33 @@ Definition join_point (second first : line) : option point :=
   | Some p => Some (if nearly_colinear second first then l_end first else p)
   | None => None
   end.
-(* line_join.rs:296 intersections(first_left, first_right, second_left, second_right) + the self-intersection
-   test and the miter test of from_points, given the four edge lines (Line::extents is not modelled).
-   Both sides are checked (the code evaluates the miter length of the outer side only). *)
+(* linear_equation.rs:52 value of distance *)
+Definition le_point_dist (l : line) (p : point) : Z := dot_product p (le_normal l) - le_distance l.
+(* line_join.rs:296 intersections(first_left, first_right, second_left, second_right), then the self-intersection
+   test and the miter test of LineJoin::from_points (line_join.rs:127), given the four edge lines, with the
+   control flow of the code: outer side = sign of the first denominator; only that side's check_side and miter
+   length are evaluated, the latter only when the segments do not self-intersect *)
 Definition join_edges_ok (fl fr sl sr : line) (mid : point) (width : Z) : bool :=
-  from_lines_ok sl fl && ip_intersection_ok sl fl && nearly_colinear_ok sl fl &&
-  from_lines_ok sr fr && ip_intersection_ok sr fr && nearly_colinear_ok sr fr &&
-  from_line_ok fl && le_point_distance_ok fl (l_end sl) &&
-  from_line_ok fr && le_point_distance_ok fr (l_end sr) &&
-  match join_point sl fl, join_point sr fr with
-  | Some li, Some ri => miter_ok li mid width && miter_ok ri mid width
-  | _, _ => true
+  from_lines_ok sl fl && ip_intersection_ok sl fl &&
+  match ip_intersection sl fl with
+  | None => true
+  | Some _ =>
+      nearly_colinear_ok sl fl && from_lines_ok sr fr && ip_intersection_ok sr fr &&
+      match ip_intersection sr fr with
+      | None => true
+      | Some _ =>
+          nearly_colinear_ok sr fr &&
+          let outer_left := ip_denominator sl fl <? 0 in
+          (if outer_left then from_line_ok fr && le_point_distance_ok fr (l_end sr)
+           else from_line_ok fl && le_point_distance_ok fl (l_end sl)) &&
+          let self_intersection :=
+            if outer_left then le_point_dist fr (l_end sr) <=? 0 else 0 <=? le_point_dist fl (l_end sl) in
+          if self_intersection then true
+          else match (if outer_left then join_point sl fl else join_point sr fr) with
+               | Some q => miter_ok q mid width
+               | None => true
+               end
+      end
   end.
 
 (* =========================================================================================== *)
@@ -756,6 +772,7 @@ Definition recorded : list (string * string * string * string) := [
   ("src/primitives/rounded_rectangle/corner_radii.rs", "CornerRadii::confine", "0 0 add add add add ( ) ( ) ( ) ( ) ( 0 u64::from( ) mul u64::from( ) u64::from( ) mul u64::from( ) ) 0 ( mul ) div ( mul ) div ( mul ) div ( mul ) div", "confine_ok");
   ("src/primitives/line/mod.rs", "Line::with_delta", "add add", "point_add_ok");
   ("src/primitives/line/mod.rs", "Line::perpendicular", "sub neg add", "perpendicular_ok");
+  ("src/primitives/line/mod.rs", "Line::extents", ".saturating_as add ( ) ( ) ( ) ( ) ( ) ( ) ( ) ( ) ( ) ( ) 0 0 sub add sub 1 add sub 1 ( )", "OverflowWalk.extents_ok");
   ("src/primitives/line/mod.rs", "Line::midpoint", "add ( sub ) div 2", "midpoint_ok");
   ("src/primitives/line/mod.rs", "Line::delta", "sub", "line_delta_ok");
   ("src/primitives/line/mod.rs", "Transform for Line::translate", "add add", "point_add_ok");
@@ -769,14 +786,14 @@ Definition recorded : list (string * string * string * string) := [
   ("src/primitives/line/bresenham.rs", "Bresenham::next_all", "add= sub= add= sub= add= add=", "next_all_ok");
   ("src/primitives/line/bresenham.rs", "Bresenham::previous_all", "neg sub= add= sub= add= sub= sub=", "previous_all_ok");
   ("src/primitives/line/bresenham.rs", "major_length", "( sub ) .abs as:u32 add 1", "major_length_ok");
-  ("src/primitives/line/thick_points.rs", "ParallelsIterator::new", "( i64::from( ) mul 2 ) .pow( 2 ) mul i64::from( ) ( add ) div 2 neg 0 0 .swap", "parallels_new_ok");
-  ("src/primitives/line/thick_points.rs", "Iterator for ParallelsIterator::next", "i64::from( ) .pow( 2 ) ( ) add= ( ) add= ( ) .swap", "parallels_next_ok");
-  ("src/primitives/line/thick_points.rs", "Iterator for ThickPoints::next", "0 sub= 1 ( ) sub= 1", "thick_points_next_ok");
+  ("src/primitives/line/thick_points.rs", "ParallelsIterator::new", "( i64::from( ) mul 2 ) .pow( 2 ) mul i64::from( ) ( add ) div 2 neg 0 0 .swap", "parallels_new_ok, OverflowWalk.parallels_new_so_ok");
+  ("src/primitives/line/thick_points.rs", "Iterator for ParallelsIterator::next", "i64::from( ) .pow( 2 ) ( ) add= ( ) add= ( ) .swap", "parallels_next_ok, OverflowWalk.parallels_step_ok");
+  ("src/primitives/line/thick_points.rs", "Iterator for ThickPoints::next", "0 sub= 1 ( ) sub= 1", "thick_points_next_ok, OverflowWalk.thick_points_ok");
   ("src/primitives/line/intersection_params.rs", "IntersectionParams::nearly_colinear_has_error", "i64::from( ) .pow( 2 ) i64::from( ) .abs", "nearly_colinear_ok");
   ("src/primitives/line/intersection_params.rs", "IntersectionParams::intersection", "0 0 i64::from( ) ( ) 0 ( neg neg ) ( ) ( add div 2 ) .div_euclid( ) .saturating_as ( ) ( ) i64::from( 0 ) mul i64::from( 1 ) sub i64::from( 1 ) mul i64::from( 0 ) ( ) ( ) ( )", "ip_intersection_ok");
   ("src/primitives/common/linear_equation.rs", "const NORMAL_VECTOR_SCALE", "1 shl 10", "constant item, evaluated by rustc");
   ("src/primitives/common/linear_equation.rs", "LinearEquation::distance", "sub", "le_point_distance_ok");
-  ("src/primitives/common/line_join.rs", "LineJoin::from_points", "( ) ( ) ( ) sub i64::from( ) .pow( 2 ) add i64::from( ) .pow( 2 ) ( i64::from( ) mul 2 ) .pow( 2 )", "miter_ok");
+  ("src/primitives/common/line_join.rs", "LineJoin::from_points", "( ) ( ) ( ) sub i64::from( ) .pow( 2 ) add i64::from( ) .pow( 2 ) ( i64::from( ) mul 2 ) .pow( 2 )", "miter_ok, join_edges_ok, OverflowWalk.join_from_points_ok");
   ("src/primitives/triangle/mod.rs", "ContainsPoint for Triangle::contains", "mul sub mul add ( sub ) mul add ( sub ) mul mul sub mul add ( sub ) mul add ( sub ) mul ( 0 ) ( 0 ) 0 0 0 0 add 0 0 add", "triangle_contains_ok");
   ("src/primitives/triangle/mod.rs", "Triangle::area_doubled", "neg mul add mul ( sub ) add mul ( sub ) add mul", "area_doubled_ok");
   ("src/primitives/triangle/mod.rs", "Transform for Triangle::translate_mut", "add=", "point_add_ok");
@@ -818,7 +835,6 @@ Definition unmodelled_fns : list (string * string) := [
   ("core/src/geometry/size.rs", "From for Size::from#3");   (* size.rs:350  index 0 index 1 *)
   ("core/src/geometry/size.rs", "From for Size::from#4");   (* size.rs:387  index 0 index 1 *)
   ("core/src/geometry/size.rs", "From for Size::from#5");   (* size.rs:397  index 0 index 1 *)
-  ("src/primitives/line/mod.rs", "Line::extents");   (* mod.rs:110  .saturating_as add ( ) ( ) ( ) ( ) ( ) ( ) ( ) ( ) ( ) ( ) 0 0 sub add sub 1 add sub 1 ( ) *)
   ("src/primitives/common/linear_equation.rs", "OriginLinearEquation::with_angle");   (* linear_equation.rs:78  f180.0 0 neg i32::from( mul Real::from( ) ) i32::from( mul Real::from( ) ) *)
   ("src/primitives/triangle/mod.rs", "Triangle::from_slice");   (* mod.rs:170  panic! *)
   ("src/primitives/triangle/mod.rs", "Triangle::sorted_clockwise");   (* mod.rs:188  0 index 1 index 0 index 2 *)
